@@ -14,7 +14,9 @@ Vars == {"o", "p"}
 Other(v) == IF v = "o" THEN "p" ELSE "o"
 Keys3 == {"a", "b", "c"}
 St(nm, s) == [nm |-> nm, s |-> s]
-Lits == { <<"0", <<>>>>, <<"a", <<"a">>>>, <<"ba", <<"b", "a">>>>, <<"abc", <<"a", "b", "c">>>>, <<"cab", <<"c", "a", "b">>>> }
+Lits == { <<"0", <<>>>>, <<"a", <<"a">>>>, <<"ba", <<"b", "a">>>>, <<"abc", <<"a", "b", "c">>>>, <<"cab", <<"c", "a", "b">>>>,
+          \* two canonically equivalent spellings of one letter (U+09DF and U+09AF U+09BC) are two different property names
+          <<"nfa", <<CpsStr(<<2527>>), CpsStr(<<2479, 2492>>), "a">>>>, <<"nfb", <<"b", CpsStr(<<2479, 2492>>), CpsStr(<<2527>>)>>>> }
 FreshVals(ks) == [i \in 1..Len(ks) |-> Bin("+", Fresh, Num(i))]
 Good ==
      { St("lit" \o l[1] \o ":" \o v, SExpr(Asg(v, Obj(l[2], FreshVals(l[2]))))) : v \in Vars, l \in Lits }
@@ -45,17 +47,21 @@ Prelude == << SFun("wr", <<"x">>, <<SExpr(PAsg(Id("x"), "c", Fresh))>>), SVar("q
               SVar("o", Obj(<<"a", "b">>, <<Num(1), Num(2)>>)), SVar("p", Obj(<<"z">>, <<Num(3)>>)) >> \o Show
 RECURSIVE Body(_)
 Body(h) == IF h = <<>> THEN <<>> ELSE <<h[1].s>> \o Show \o Body(Tail(h))
+RECURSIVE BodyQuiet(_)      \* the same history with the objects shown only before the first and after the last operation
+BodyQuiet(h) == IF h = <<>> THEN <<>> ELSE <<h[1].s>> \o BodyQuiet(Tail(h))
 RECURSIVE HName(_)
 HName(h) == IF h = <<>> THEN "" ELSE h[1].nm \o ";" \o HName(Tail(h))
 ClassOf(h) == IF h = <<>> THEN "empty" ELSE IF Len(h) > HistLen THEN "random" ELSE h[Len(h)].nm
 
-Cases == SetToSeq(Hists \cup Randoms)
-Programs == [i \in 1..Len(Cases) |-> FreshProg(Prelude \o Body(Cases[i]), 1)]
+Cases0 == SetToSeq(Hists \cup Randoms)
+NC0 == Len(Cases0)
+Cases == Cases0 \o SelectSeq(Cases0, LAMBDA h : Len(h) >= 2)      \* second half: quiet rendering
+Programs == [i \in 1..Len(Cases) |-> FreshProg(Prelude \o (IF i <= NC0 THEN Body(Cases[i]) ELSE BodyQuiet(Cases[i]) \o Show), 1)]
 FamProgOf(i) == Programs[i]
 Init == \E i \in 1..Len(Programs) : InitSem(i, <<>>, FALSE)
 Next == SemNext
 EmitInv == (EmitOn /\ Final) =>
-   Emit([fam |-> "objects", cls |-> ClassOf(Cases[pid]), key |-> HName(Cases[pid]), pid |-> pid,
+   Emit([fam |-> "objects", cls |-> ClassOf(Cases[pid]) \o (IF pid > NC0 THEN "|quiet" ELSE ""), key |-> HName(Cases[pid]) \o (IF pid > NC0 THEN "|quiet" ELSE ""), pid |-> pid,
          toks |-> Compact(Yield(MinParen(P))), tree |-> P, stdin |-> stdin, repl |-> repl,
          status |-> status, why |-> why, out |-> out, diags |-> diags, natlog |-> natlog, steps |-> steps])
 (* ListingStable: the listing order of an object changes only when the object is modified (its version grows) *)
